@@ -221,34 +221,37 @@ theorem mem_keys_iff (adj : List (Link × Nat)) (l : Link) : l ∈ keys adj ↔ 
   · rintro ⟨e, he, rfl⟩; exact ⟨e.2, he⟩
   · rintro ⟨t, ht⟩; exact ⟨(l, t), ht, rfl⟩
 
+/-- a connected switch stays connected over ops that contain no ConnectionDown for it -/
+theorem isUp_stays (d : Nat) (pre : List Op) (l : Link) (order : List Nat) (hu : isUp pre d = true) :
+    ∀ (post : List Op), (∀ o ∈ post, ∀ ord, o ≠ Op.down d ord) → isUp (pre ++ Op.probe l order :: post) d = true := by
+  intro post
+  induction post using snoc_ind with
+  | h0 =>
+    intro _
+    have : pre ++ [Op.probe l order] = pre ++ [Op.probe l order] := rfl
+    rw [isUp_snoc]; exact hu
+  | hs post op ih =>
+    intro hnd
+    have e : pre ++ Op.probe l order :: (post ++ [op]) = (pre ++ Op.probe l order :: post) ++ [op] := by simp
+    rw [e, isUp_snoc]
+    have ih' := ih (fun o ho => hnd o (by simp [ho]))
+    have hop := hnd op (by simp)
+    cases op with
+    | tick _ => exact ih'
+    | probe _ _ => exact ih'
+    | sweep _ => exact ih'
+    | up d' ps => simp only []; split <;> simp [ih']
+    | down d' o =>
+      simp only []
+      have : d' ≠ d := fun c => hop o (by rw [c])
+      simp [this, ih']
+
 /-- if `Spec` holds the sender is still connected and the link does not join a port to itself -/
 theorem Spec_accepts (ops : List Op) (l : Link) (t : Nat) (h : Spec ops l t) : isUp ops l.dpid1 = true ∧ ¬ selfPort l := by
   obtain ⟨pre, order, post, hs, hu, hsp, _, _, hnd, _⟩ := h
   refine ⟨?_, hsp⟩
   subst hs
-  have key : ∀ (post : List Op), (∀ o ∈ post, ¬ isDownOf l o) → isUp (pre ++ Op.probe l order :: post) l.dpid1 = true := by
-    intro post
-    induction post using snoc_ind with
-    | h0 =>
-      intro _
-      have : pre ++ [Op.probe l order] = pre ++ [Op.probe l order] := rfl
-      rw [isUp_snoc]; exact hu
-    | hs post op ih =>
-      intro hnd
-      have e : pre ++ Op.probe l order :: (post ++ [op]) = (pre ++ Op.probe l order :: post) ++ [op] := by simp
-      rw [e, isUp_snoc]
-      have ih' := ih (fun o ho => hnd o (by simp [ho]))
-      have hop := hnd op (by simp)
-      cases op with
-      | tick _ => exact ih'
-      | probe _ _ => exact ih'
-      | sweep _ => exact ih'
-      | up d ps => simp only []; split <;> simp [ih']
-      | down d o =>
-        simp only []
-        have : d ≠ l.dpid1 := fun c => hop ⟨o, .inl (by rw [c])⟩
-        simp [this, ih']
-  exact key post hnd
+  exact isUp_stays l.dpid1 pre l order hu post (fun o ho ord c => hnd o ho ⟨ord, .inl c⟩)
 
 /-- ADJACENCY_EXACT, both variants: after every history the adjacency holds exactly the pairs described by `Spec` -/
 theorem adjacency_spec (v : Variant) (ops : List Op) (l : Link) (t : Nat) :
